@@ -131,6 +131,13 @@ class WorkerSpec(Spec):
     def descend(self, eng, callee):
         return callee in self.reach or callee == GETDEST
 
+    def view(self, eng, body):
+        # private helpers that neither queue a response nor build one are spliced into their caller: where a
+        # maintainer draws the function boundary around `keep the failure, else the first answer` must not matter
+        import inline
+        keep = lambda fn: (self.descend(eng, fn) or fn in (PUSH, WRITE, ISFAIL, READ) or fn in self.ctor)
+        return inline.inlined(self.F, body, keep_pred=keep, depth=2, budget=400)
+
 
 def run(F, chk):
     chk.explanation = (
@@ -154,7 +161,7 @@ def run(F, chk):
     variants = F.variants(RT)
     ra = chk.rule("R-C08-a", "T1", "exactly one terminal response per received command, for every RequestType "
                   "variant and every path of the worker's dispatch", floor=40)
-    rcm = F.body(SERVER + "::read_channel_messages_and_notify")
+    rcm = sp.view(eng, F.body(SERVER + "::read_channel_messages_and_notify"))
     # start after the read_message call, with the result fixed to Ok(request)
     starts = [(bi, t) for bi, t in rcm.calls() if t.get("fn") == READ]
     if not ra.require(len(starts) == 1, "expected exactly one Channel::read_message call in read_channel_messages_and_notify"):
